@@ -115,7 +115,12 @@ func CallOK(name string, cs ...Callee) Req {
 	return Req{Name: name, Holds: func(s *State, at ssa.Instruction) bool {
 		for _, f := range scopeFuncs(s.Fn) {
 			for _, call := range Calls(f, cs...) {
-				if e := ErrResult(call, -1); e != nil && s.IsNil(e) {
+				e := ErrResult(call, -1)
+				if e != nil && s.IsNil(e) {
+					return true
+				}
+				// tail forwarding: `return f(x)` — this function's error IS the callee's error
+				if ret, ok := at.(*ssa.Return); ok && e != nil && len(ret.Results) > 0 && s.Key(s.RetVal(ret, -1)) == s.Key(e) {
 					return true
 				}
 			}
